@@ -103,7 +103,9 @@ impl JobManager {
             }
         }
 
-        let id = self.jobs.len() + 1;
+        // Number the job after the highest live job: jobs that finished earlier may already have
+        // been removed from the table, so its length can collide with a live job's number.
+        let id = self.jobs.iter().map(|j| j.id).max().unwrap_or(0) + 1;
         job.id = id;
         job.annotation = JobAnnotation::Current;
         self.jobs.push(job);
